@@ -23,6 +23,8 @@ extern int ofv_failed;
 long long ofv_get_i(const char *name, long i);
 #define IN_MEM_I(type, arr, i, lval) ((lval) = (type)((arr)[i] = (type)ofv_get_i(#arr, (long)(i))))
 #define IN_I(type, arr, i)       ((arr)[i] = (type)ofv_get_i(#arr, (long)(i)))
+long long ofv_get_ij(const char *name, long i, long j);
+#define IN_IJ(type, arr, i, j)   ((arr)[i][j] = (type)ofv_get_ij(#arr, (long)(i), (long)(j)))
 #define REQUIRES(c)      do { if (!(c)) { printf("REPLAY-PRECONDITION-NOT-MET %s\n", #c); exit(3); } } while (0)
 #define ENSURES(c, name) do { if (!(c)) { printf("REPLAY-FAIL %s\n", name); ofv_failed = 1; } } while (0)
 #define REACHED(tag)     do { printf("REPLAY-REACHED %s\n", tag); } while (0)
@@ -34,6 +36,7 @@ void *ofv_exact_alloc(size_t n);
 #define IN_MEM(type, var, lval)  ((var) = (type)(lval))
 #define IN_MEM_I(type, arr, i, lval) ((arr)[i] = (type)(lval))
 #define IN_I(type, arr, i)       do { type ofv_nd_i; (arr)[i] = ofv_nd_i; } while (0)
+#define IN_IJ(type, arr, i, j)   do { type ofv_nd_ij; (arr)[i][j] = ofv_nd_ij; } while (0)
 #define REQUIRES(c)      __CPROVER_assume(c)
 #define ENSURES(c, name) __CPROVER_assert(c, name)
 /* vacuity canary: must be reported FAILURE by cbmc, i.e. this point is reachable under the precondition */
